@@ -284,7 +284,7 @@ impl Watchpoint {
         };
         let size = BreakSize::try_from(size as u8)?;
 
-        let mut end_of_scope_brkpt = None;
+        let mut end_of_scope = None;
         let mut frame_id = None;
         if let Some(scope) = address_dqe_result.scope() {
             // take a current frame id
@@ -364,18 +364,37 @@ impl Watchpoint {
 
             let best_place = best_place.ok_or(Error::UnknownScope)?;
 
-            let end_of_scope = best_place
-                .address
-                .relocate_to_segment(&debugger.debugee, dwarf)?;
+            end_of_scope = Some(
+                best_place
+                    .address
+                    .relocate_to_segment(&debugger.debugee, dwarf)?,
+            );
+        }
+
+        // take a debug register first: if there is no free one, the request is refused
+        // and must not leave a companion breakpoint behind
+        let mut hw_brkpt = HardwareBreakpoint::new(address, size, condition);
+        let state = hw_brkpt.enable(debugger.debugee.tracee_ctl())?;
+
+        let mut end_of_scope_brkpt = None;
+        if let Some(end_of_scope) = end_of_scope {
             let next_wp_num = GLOBAL_WP_COUNTER.load(Ordering::Relaxed);
             let brkpt = Breakpoint::new_watchpoint_companion(
                 &debugger.breakpoints,
                 next_wp_num,
                 end_of_scope,
-                ecx.pid_on_focus(),
+                debugger.ecx().pid_on_focus(),
             );
-            let brkpt_view = debugger.breakpoints.add_and_enable(brkpt)?;
-            end_of_scope_brkpt = Some(brkpt_view.number);
+            match debugger.breakpoints.add_and_enable(brkpt) {
+                Ok(brkpt_view) => end_of_scope_brkpt = Some(brkpt_view.number),
+                Err(e) => {
+                    // give the debug register back
+                    if let Err(e) = hw_brkpt.disable(debugger.debugee.tracee_ctl()) {
+                        error!("remove hardware breakpoint: {e}")
+                    }
+                    return Err(e);
+                }
+            }
         }
 
         let mut target = ExpressionTarget {
@@ -391,9 +410,6 @@ impl Watchpoint {
             .map(|ev| ev.into_value())
             .ok();
         target.last_value = var;
-
-        let mut hw_brkpt = HardwareBreakpoint::new(address, size, condition);
-        let state = hw_brkpt.enable(debugger.debugee.tracee_ctl())?;
 
         let this = Self {
             number: GLOBAL_WP_COUNTER.fetch_add(1, Ordering::Relaxed),
